@@ -222,8 +222,64 @@ def unseeded(size, lo, hi, stride):
   return r
 
 
+def case_unseeded_mixed(sizes, index, mode):
+  """Keys whose primes come from listed unseeded outputs of *different* sizes, judged by one
+  check object: mode 'batch' = one Check() call, 'calls' = one call per key on the same
+  object, 'entry' = paranoid.CheckAllRSA called once per key (per-process check instances)."""
+  w = world.load()
+  ds = []
+  for j, size in enumerate(sizes):
+    vals = sorted(w.unseeded_rands.size_unseeded_map[size])
+    ds.append(g.unseeded(vals[(index + 7 * j) % len(vals)], 1, size, 'c04m'))
+  keys = [art.rsa_key(d['n']) for d in ds]
+  if mode == 'batch':
+    st, ret = guarded(w.rsa_single_checks.CheckUnseededRand().Check, keys)
+  elif mode == 'calls':
+    obj = w.rsa_single_checks.CheckUnseededRand()
+    for k in keys:
+      st, ret = guarded(obj.Check, [k])
+      if st == 'exc':
+        break
+  else:
+    for k in keys:
+      st, ret = guarded(w.paranoid.CheckAllRSA, [k])
+      if st == 'exc':
+        break
+  if st == 'exc':
+    return ['CheckUnseededRand (%s, prime sizes %s) raised %s' % (mode, sizes, ret)]
+  out = []
+  for size, d, k in zip(sizes, ds, keys):
+    if _recorded(k) != frozenset([d['p'], d['q']]):
+      out.append('modulus with a %d-bit prime next to a listed unseeded output is not factored '
+                 'when the same check object judges prime sizes %s (%s, output #%d)' %
+                 (size, sizes, mode, index))
+  return out
+
+
+def unseeded_mixed(index, thorough):
+  w = world.load()
+  r = Result()
+  sizes = sorted(w.unseeded_rands.size_unseeded_map)
+  if not thorough:
+    sizes = [s for s in sizes if s <= 2048]
+  import itertools
+  for a, b in itertools.permutations(sizes, 2):
+    for mode in ('batch', 'calls') + (('entry',) if max(a, b) <= 1024 else ()):
+      bad = case_unseeded_mixed([a, b], index, mode)
+      r.ev('unseeded-mixed/%s' % mode, True)
+      r.transitions += 1
+      for x in bad[:1]:
+        r.violation(x, {'fn': 'unseeded_mixed', 'args': {'sizes': [a, b], 'index': index,
+                                                         'mode': mode}})
+    if len(r.violations) > 5:
+      break
+  r.sample({'prime_sizes': sizes, 'ordered_pairs': 'all', 'modes': ['batch', 'calls', 'entry'],
+            'output_index': index})
+  return r
+
+
 CASES = {'fermat': case_fermat, 'hle': case_hle, 'updiff': case_updiff,
-         'unseeded': case_unseeded}
+         'unseeded': case_unseeded, 'unseeded_mixed': case_unseeded_mixed}
 
 
 def plan(tier, seed):
@@ -266,4 +322,9 @@ def plan(tier, seed):
                     bound='%s listed unseeded output x 3 top-bit variants' %
                     ('every' if thorough else 'every 8th (16th for 4096 bits)'),
                     weight=size**3 / 100))
+  for index in ((seed % 80, (seed + 41) % 80) if not thorough else range(0, 80, 10)):
+    T.append(Task('unseeded-mixed-sizes', 'unseeded_mixed', {'index': index,
+                                                              'thorough': thorough},
+                  bound='every ordered pair of listed prime sizes judged by one check object: in '
+                  'one batch, in consecutive calls, through the entry point', weight=3e8))
   return T
